@@ -75,5 +75,4 @@ theorem dict_assemble (pruned dc : List Int) (n cur0 : Int)
       · exact ⟨x0, lift x0 hx0m, x0, lift x0 hx0m, rfl⟩
       · exact ⟨x0, lift x0 hx0m, d, lift d (List.mem_append_left _ hd), rfl⟩
 
-#print axioms dict_assemble
 end P
